@@ -715,7 +715,8 @@ def gen_case(rng, flagpool=None):
     plan = rng.choice([['iface', 'class', 'class'], ['class'], ['class', 'boxed', 'enum'], ['enum', 'quark'],
                        ['class', 'classquark'], ['boxed', 'boxedquark', 'pointer'], ['iface', 'iface', 'class', 'fundamental'],
                        ['class', 'class', 'class', 'iface', 'enum', 'boxed', 'pointer', 'quark'],
-                       ['fundamental', 'class'], ['enum', 'enum', 'quark', 'quark', 'class'], ['ifacequark', 'class']])
+                       ['fundamental', 'class'], ['enum', 'enum', 'quark', 'quark', 'class'], ['ifacequark', 'class'],
+                       ['classquark', 'quark', 'classquark'], ['enum', 'quark', 'classquark']])
     rng.shuffle(plan) if rng.random() < 0.3 else None
     for step in plan:
         if step == 'class':
@@ -771,8 +772,16 @@ def gen_malformed(rng):
     case = gen_case(rng)
     case['malformed'] = True
     kind = rng.choice(['foreign-name', 'undeclared-get-type', 'foreign-get-type', 'dup-entry', 'bad-tag',
-                       'no-name-class', 'quark-unknown', 'abstract-zero', 'same-get-type', 'empty-parents', 'hidden-name'])
+                       'no-name-class', 'quark-unknown', 'quark-twice', 'abstract-zero', 'same-get-type', 'empty-parents', 'hidden-name'])
     types = [i for i, it in enumerate(case['dump']) if it['tag'] != 'error-quark']
+    if kind == 'quark-twice':
+        # the same function reported twice with different domains (gdump.c is asked about each function once)
+        quarks = [it for it in case['dump'] if it['tag'] == 'error-quark']
+        if quarks:
+            again = dict(rng.choice(quarks), domain='reported-again')
+            case['dump'].insert(rng.randint(0, len(case['dump'])), again)
+        case['malformed_kind'] = kind
+        return case
     if not types:
         return case
     i = rng.choice(types)
@@ -1476,14 +1485,14 @@ def run(ctx):
                 'class, a non-pointer, nothing; typedef-ed function pointer members), interfaces (Iface / Interface / both / none), '
                 'boxed and pointer types matching a record / an opaque record / a union / nothing, registered and plain enums and flags, '
                 'fundamental types, error-quark functions next to registered / plain enums with and without a class, boxed or interface of '
-                'the same prefix; parent chains with 0-3 hidden intermediates over own, GObject and Gio ancestors or with no known '
+                'the same prefix, several of them per namespace; parent chains with 0-3 hidden intermediates over own, GObject and Gio ancestors or with no known '
                 'ancestor at all; implements / prerequisite lists mixing known and hidden names; all 16 low flag combinations dealt out '
                 'per 100 cases plus random 31/64-bit and negative (%d-printed G_PARAM_DEPRECATED) flag words; property types over GLib '
                 'fundamentals, containers, own and include types, unknown types, with defaults (including the empty string); signals '
                 'with every `when` (and none) and every subset of the four flags; shuffled dump and declaration order; 12% malformed pairs '
-                '(foreign / hidden names, undeclared or foreign get-type symbols, duplicate entries, unknown tags, shared get-type, '
+                '(foreign / hidden names, undeclared or foreign get-type symbols, duplicate entries, an error-quark function reported twice, unknown tags, shared get-type, '
                 'odd parents strings). non-trivial = dump not empty; distinct by content hash. Every pair: real pipeline vs model '
-                '(live objects after MainTransformer, namespace after GDumpParser.parse, written order in the GIR), and the '
+                '(live objects after MainTransformer, namespace after GDumpParser.parse, the error-quark functions in Namespace.symbols order and which of them a class owns, written order in the GIR), and the '
                 'statement oracle on the real GIR.',
         'samples': samples,
         'distribution': cnt.counts,
